@@ -15,7 +15,7 @@ pub const DEF: PropDef = PropDef {
     run,
     replay,
     level: "exploration",
-    rule: "model-based differential: op sequences over {write i->r, deliver oldest pending i->r, write r->i, deliver r->i, rekey_outgoing / rekey_incoming on either side, rekey_manually(Some/None, Some/None), rekey_initiator_manually, rekey_responder_manually with keys from a 5-element pool (three fresh keys, two of them sharing a 24-byte prefix, and the session's two initial keys)} - exhaustive to depth 4 (thorough 5) over an 11-symbol core alphabet and random to depth 40 over the full set - for all ciphers x backends (default, ring-first) x stateful/stateless x interactive/one-way. Model: per endpoint and direction one key value, initial keys from the reference model's Split(); auto rekey sets k <- ENCRYPT_ref(k, 2^64-1, '', 0^32)[..32] with the reference AEAD. Oracle: every written message equals ENCRYPT_ref(k_out, n, '', payload) byte for byte; a delivery is accepted iff the sender's key at write time equals the receiver's current key for that direction and the nonce matches; nonces are untouched by any rekey call. Non-trivial = the sequence contains a rekey and a later delivery; distinct by (config, sequence)",
+    rule: "model-based differential: op sequences over {write i->r, deliver oldest pending i->r, write r->i, deliver r->i, rekey_outgoing / rekey_incoming on either side, rekey_manually(Some/None, Some/None), rekey_initiator_manually, rekey_responder_manually with keys from a 10-element pool (three fresh keys, two of them sharing a 24-byte prefix, the session's two initial keys, all-zero / constant-fill keys and two keys of the form s||s)} - exhaustive to depth 4 (thorough 5) over a 12-symbol core alphabet (one level less for the one-way / K configurations) and random to depth 40 over the full set - for all ciphers x backends (default, ring-first) x stateful/stateless x interactive/one-way. Model: per endpoint and direction one key value, initial keys from the reference model's Split(); auto rekey sets k <- ENCRYPT_ref(k, 2^64-1, '', 0^32)[..32] with the reference AEAD. Oracle: every written message equals ENCRYPT_ref(k_out, n, '', payload) byte for byte; a delivery is accepted iff the sender's key at write time equals the receiver's current key for that direction and the nonce matches; nonces are untouched by any rekey call. Non-trivial = the sequence contains a rekey and a later delivery; distinct by (config, sequence)",
     technique: "model-based differential testing against the reference AEAD/REKEY (unwrapped real backends); bounded-exhaustive + proptest",
     assumptions: &["REKEY is validated against the specification text only (section 4.2); no third-party vectors exist for it"],
     panic_is_violation: false,
@@ -98,7 +98,17 @@ fn oracle(c: &Case, acc: &mut Acc) -> CaseResult {
     };
     // pool[3] / pool[4] are the session's own initial keys (Split() outputs): installing them
     // again after an automatic rekey must really go back to them
-    let mut pool = [expand32(c.seed, 900), expand32(c.seed, 901), expand32(c.seed, 902), rt.k_i2r, rt.k_r2i];
+    // pool[5..] are structured keys: constant fill, all zero, and two keys of the form s || s
+    // (a 128-bit secret repeated) - differences between them are the same in both halves
+    let half_a = expand(c.seed, 903, 16);
+    let half_b = expand(c.seed, 904, 16);
+    let mut rep_a = [0u8; 32];
+    let mut rep_b = [0u8; 32];
+    rep_a[..16].copy_from_slice(&half_a);
+    rep_a[16..].copy_from_slice(&half_a);
+    rep_b[..16].copy_from_slice(&half_b);
+    rep_b[16..].copy_from_slice(&half_b);
+    let mut pool = [expand32(c.seed, 900), expand32(c.seed, 901), expand32(c.seed, 902), rt.k_i2r, rt.k_r2i, [0u8; 32], [1u8; 32], [2u8; 32], rep_a, rep_b];
     pool[0][0] = 0; // a key with a leading zero byte
     pool[1][31] = 0;
     // pool[2] shares its first 24 bytes with pool[1] (keys of the form secret || counter)
@@ -187,8 +197,8 @@ fn oracle(c: &Case, acc: &mut Acc) -> CaseResult {
             },
             Op::Manual(side_i, a, b) => {
                 let s = !*side_i as usize;
-                let ka = a.map(|i| pool[i as usize % 5]);
-                let kb = b.map(|i| pool[i as usize % 5]);
+                let ka = a.map(|i| pool[i as usize % 10]);
+                let kb = b.map(|i| pool[i as usize % 10]);
                 match &mut ts[s] {
                     T::F(t) => t.rekey_manually(ka.as_ref(), kb.as_ref()),
                     T::L(t) => t.rekey_manually(ka.as_ref(), kb.as_ref()),
@@ -203,7 +213,7 @@ fn oracle(c: &Case, acc: &mut Acc) -> CaseResult {
             },
             Op::ManualI(side_i, a) => {
                 let s = !*side_i as usize;
-                let k = pool[*a as usize % 5];
+                let k = pool[*a as usize % 10];
                 match &mut ts[s] {
                     T::F(t) => t.rekey_initiator_manually(&k),
                     T::L(t) => t.rekey_initiator_manually(&k),
@@ -229,7 +239,7 @@ fn oracle(c: &Case, acc: &mut Acc) -> CaseResult {
             },
             Op::ManualR(side_i, a) => {
                 let s = !*side_i as usize;
-                let k = pool[*a as usize % 5];
+                let k = pool[*a as usize % 10];
                 match &mut ts[s] {
                     T::F(t) => t.rekey_responder_manually(&k),
                     T::L(t) => t.rekey_responder_manually(&k),
@@ -268,9 +278,10 @@ fn core_alphabet() -> Vec<Op> {
         Op::RekeyIn(false),
         Op::RekeyOut(false),
         Op::RekeyIn(true),
-        Op::ManualI(true, 0),
-        Op::ManualI(false, 0),
+        Op::ManualI(true, 8),
+        Op::ManualI(false, 8),
         Op::ManualI(true, 3),
+        Op::ManualI(true, 9),
     ]
 }
 
@@ -297,18 +308,21 @@ pub fn run(ctx: &Ctx) {
             }
         }
     }
-    ctx.note(format!("{} configurations x {} sequences (all sequences up to depth {} over a {}-symbol alphabet)", cfgs.len(), per_cfg, depth, alpha.len()));
+    // the NN configurations get the full depth, the one-way / K ones one level less
+    let per_cfg_short: usize = (0..depth).map(|l| alpha.len().pow(l as u32)).sum();
+    let deep: Vec<_> = cfgs.iter().filter(|c| c.3 == "NN").cloned().collect();
+    let shallow: Vec<_> = cfgs.iter().filter(|c| c.3 != "NN").cloned().collect();
+    ctx.note(format!("{} configurations x {} sequences (all sequences up to depth {}) + {} configurations x {} (depth {}) over a {}-symbol alphabet", deep.len(), per_cfg, depth, shallow.len(), per_cfg_short, depth - 1, alpha.len()));
     let seed = ctx.seed;
     {
-        let cfgs = cfgs.clone();
         let alpha = alpha.clone();
+        let n_deep = per_cfg * deep.len();
         ctx.run_indexed(
             "all_sequences",
-            per_cfg * cfgs.len(),
+            n_deep + per_cfg_short * shallow.len(),
             true,
             move |i| {
-                let (si, b, stateless, pat) = cfgs[i % cfgs.len()];
-                let mut idx = i / cfgs.len();
+                let ((si, b, stateless, pat), mut idx) = if i < n_deep { (deep[i % deep.len()], i / deep.len()) } else { (shallow[(i - n_deep) % shallow.len()], (i - n_deep) / shallow.len()) };
                 let a = alpha.len();
                 let mut len = 0;
                 let mut count = 1usize;
@@ -331,15 +345,15 @@ pub fn run(ctx: &Ctx) {
         "random_sequences",
         ctx.tier.pick(8000, 100_000),
         || {
-            let k = || prop_oneof![Just(None), (0u8..5).prop_map(Some)];
+            let k = || prop_oneof![Just(None), (0u8..10).prop_map(Some)];
             let op = prop_oneof![
                 6 => any::<bool>().prop_map(Op::Write),
                 6 => any::<bool>().prop_map(Op::Deliver),
                 2 => any::<bool>().prop_map(Op::RekeyOut),
                 2 => any::<bool>().prop_map(Op::RekeyIn),
                 1 => (any::<bool>(), k(), k()).prop_map(|(s, a, b)| Op::Manual(s, a, b)),
-                1 => (any::<bool>(), 0u8..5).prop_map(|(s, a)| Op::ManualI(s, a)),
-                1 => (any::<bool>(), 0u8..5).prop_map(|(s, a)| Op::ManualR(s, a)),
+                1 => (any::<bool>(), 0u8..10).prop_map(|(s, a)| Op::ManualI(s, a)),
+                1 => (any::<bool>(), 0u8..10).prop_map(|(s, a)| Op::ManualR(s, a)),
                 1 => (any::<bool>(), 0u8..9).prop_map(|(d, w)| Op::Jump(d, w)),
             ];
             (prop_oneof![3 => Just("NN"), 1 => Just("N"), 1 => Just("XX"), 1 => Just("K")], 0usize..24, any::<bool>(), any::<bool>(), prop::collection::vec(op, 0..40), any::<u64>()).prop_map(|(p, suite_idx, ring, stateless, ops, seed)| Case {
